@@ -121,3 +121,26 @@ Theorem C03_engine_noop_after_crash_refuted :
             Quiescent [1]%Z s /\ ins s = IRunning /\ store s 1%Z = SRetrying.
 Proof. exact noop_after_crash_refuted. Qed.
 Print Assumptions C03_engine_noop_after_crash_refuted.
+
+(** The executor's registration protocol (ExecReg: Push, init goroutine, workers, cancel map; deliveries aliased
+    to task objects, any number of workers, every history).  With nothing in the executor's hands nothing is
+    registered, so a re-armed task is accepted; the executor only ever waits behind running actions. *)
+From FF Require Import ExecReg ExecRegFacts.
+
+Theorem C03_executor_idle_accepts_every_task : forall nworkers f ls s d r,
+  xrun nworkers false (xinit f) ls = Some s -> idle s = true -> initq s = d :: r ->
+  exists s', xstep nworkers false s XInitTake = Some s' /\ held s' = Some d /\ reg s' (dt d) = true.
+Proof. exact idle_executor_accepts. Qed.
+Print Assumptions C03_executor_idle_accepts_every_task.
+
+Theorem C03_executor_no_run_no_backlog : forall nworkers f ls s,
+  (0 < nworkers)%nat -> xrun nworkers false (xinit f) ls = Some s -> internal_enabled nworkers s = false ->
+  work s = [] -> held s = None /\ initq s = [].
+Proof. exact no_run_no_backlog. Qed.
+Print Assumptions C03_executor_no_run_no_backlog.
+
+(** the code before fix de0061a: a refused delivery stays registered (the duppath history) *)
+Theorem C03_executor_leak_refuted :
+  exists s, xrun 1 true (xinit (fun _ => SContinue)) w_leak = Some s /\ idle s = true /\ reg s 5%Z = true.
+Proof. exact leak_refuted. Qed.
+Print Assumptions C03_executor_leak_refuted.
